@@ -107,7 +107,8 @@ def check_op(case, pid: int, dt: int, res: str) -> str | None:
         # exactness: the result is an occurrence of the underlying trigger shifted by exactly `off`; and it is the
         # shifted value of the first underlying occurrence after dt whose shifted value is after dt
         if r - off not in set(occ):
-            return f'offset result {r} is not an occurrence of the underlying trigger shifted by {off} {where}'
+            near = 'F15:1ns ' if (r - off - 1 in set(occ) or r - off + 1 in set(occ)) else ''
+            return f'{near}offset result {r} is not an occurrence of the underlying trigger shifted by {off} {where}'
         cand = [n + off for n in occ if n > dt and n + off > dt]
         if cand and cand[0] != r:
             return f'offset returned {r}, expected {cand[0]} (= first occurrence after the reference + {off}) {where}'
